@@ -23,7 +23,10 @@ EXTENDS Naturals, Sequences, FiniteSets, TLC
 
 CONSTANTS N,          \* tokens each peer wants to send
           MaxSeg,     \* largest write / read size
-          Marker      \* TRUE: CloseWrite marker + half-close (current code); FALSE: the code before the fix
+          Marker,     \* TRUE: CloseWrite marker + half-close (current code); FALSE: the code before the fix
+          Timers      \* deviations: deadlines that turn quiet periods into ends of streams (the current code has none: {})
+                      \*   "read-after-half-close": once one loop of a bridge has ended, the other loop's reads get a deadline
+                      \*   "marker-write": the CloseWrite marker goes out under the deadline of the last data write and can fail
 
 Dir == {"up", "down"}            \* up: client -> server, down: server -> client
 Other(d) == IF d = "up" THEN "down" ELSE "up"
@@ -93,13 +96,24 @@ OutEnds(d) ==           \* io.Copy(tcp, ws) returns: the marker was read (io.EOF
   /\ eof' = IF Marker THEN [eof EXCEPT ![d] = TRUE] ELSE eof
   /\ UNCHANGED <<next, buf, rcvd, srcClosed, inDone, released, wsClosed, firstClosed>>
 
+OutTimesOut(d) ==       \* (deviation) the out-loop's websocket read runs into a deadline set when the bridge's in-loop ended:
+                        \* io.Copy ends as if the stream were over and the far peer is given a clean end-of-stream
+  /\ "read-after-half-close" \in Timers /\ inDone[Other(d)] /\ ~outDone[d]
+  /\ outDone' = [outDone EXCEPT ![d] = TRUE] /\ eof' = [eof EXCEPT ![d] = TRUE]
+  /\ UNCHANGED <<next, wsq, buf, rcvd, srcClosed, inDone, released, wsClosed, firstClosed>>
+
+InEndsMarkerLost(d) ==  \* (deviation) the in-loop ends, but the marker is written under an expired deadline and is lost
+  /\ "marker-write" \in Timers /\ ~inDone[d] /\ srcClosed[d] /\ next[d] > 1
+  /\ inDone' = [inDone EXCEPT ![d] = TRUE]
+  /\ UNCHANGED <<next, wsq, buf, rcvd, srcClosed, outDone, released, wsClosed, eof, firstClosed>>
+
 Release(b) ==           \* wg.Wait() returns: the deferred Close of both connections runs
   /\ ~released[b] /\ inDone[InDir(b)] /\ outDone[OutDir(b)]
   /\ released' = [released EXCEPT ![b] = TRUE] /\ wsClosed' = TRUE
   /\ eof' = [eof EXCEPT ![OutDir(b)] = TRUE]
   /\ UNCHANGED <<next, wsq, buf, rcvd, srcClosed, inDone, outDone, firstClosed>>
 
-Next == \/ \E d \in Dir : PeerClose(d) \/ InEnds(d) \/ OutEnds(d) \/ Refill(d)
+Next == \/ \E d \in Dir : PeerClose(d) \/ InEnds(d) \/ OutEnds(d) \/ Refill(d) \/ OutTimesOut(d) \/ InEndsMarkerLost(d)
                           \/ (\E k \in 1..MaxSeg : Write(d, k) \/ Deliver(d, k))
         \/ \E b \in Bridge : Release(b)
 Fair == /\ \A d \in Dir : /\ WF_vars(InEnds(d)) /\ WF_vars(OutEnds(d))
